@@ -20,7 +20,7 @@ RULE = ('cases = (payload, write path, compression, crash point); crash points: 
         'h5py AttributeManager.__setitem__ / Group.create_dataset / Dataset.__setitem__ / File.flush / File.close made by the writer '
         '(all enumerated for small and medium payloads, dense ends + uniform sample for multi-megabyte ones in the quick tier) and '
         'SIGKILL at the N-th pwrite64 for every N (strace injection); non-trivial = every crash point; distinct = (payload, path, point)')
-ASSUMPTIONS = ['crash model = process death (SIGKILL) with the OS staying up; torn single writes / power loss below the page cache are not modelled',
+ASSUMPTIONS = ['crash model = death of the writer process with the OS staying up: SIGKILL (no clean-up), SIGINT (KeyboardInterrupt unwinds first) and an unhandled I/O error raised by a storage call; torn single writes / power loss below the page cache are not modelled',
                'a complete file left by a kill after the last data-bearing write is "a file that does load and contains exactly what was being written"']
 REACH = ['gambit.sigs.hdf5:load_signatures_hdf5']
 PY = '/venv/bin/python'
@@ -39,6 +39,8 @@ def shards(tier, seed):
 		dict(name='overwrite-array', path='array', nsig=6, size=80, comp=None, preexisting=True),
 		dict(name='overwrite-list-strids-gzip', path='list', nsig=7, size=60, comp='gzip', ids='str', preexisting=True),
 		dict(name='annotated-list-strids', path='list', nsig=8, size=30, comp=None, ids='str'),
+		dict(name='annotated-list-empty-meta', path='list', nsig=4, size=30, comp=None, ids='str', meta='empties'),
+		dict(name='wrapped-array-none-meta', path='wrapped-array', nsig=4, size=30, comp=None, meta='nones'),
 		dict(name='medium-list', path='list', nsig=120, size=400, comp=None),
 		dict(name='medium-array-gzip', path='array', nsig=120, size=400, comp='gzip'),
 		dict(name='large-list-8MB', path='list', nsig=500, size=2000, comp=None, dt='u8'),
@@ -85,6 +87,13 @@ def build_payload(p):
 	base = SignatureArray(sigs, ks, dtype=dt) if p['path'] in ('array', 'wrapped-array') else SignatureList(list(sigs), ks, dtype=dt)
 	ids = [f'genome-{i}-é' for i in range(len(sigs))] if p.get('ids') == 'str' else list(range(100, 100 + len(sigs)))
 	meta = SignaturesMeta(id='payload', name=p['name'], version='1.0', id_attr='key', description='crash test', extra={'n': len(sigs), 'nested': {'a': [1, 2, 3]}})
+	if p.get('meta') == 'empties':
+		# empty strings are values, not "missing": they must come back as empty strings
+		meta = SignaturesMeta(id='', name='', version='', id_attr='', description='', extra={})
+	elif p.get('meta') == 'nones':
+		meta = SignaturesMeta(id=None, name=None, version=None, id_attr=None, description=None, extra=None)
+	if p.get('ids') == 'str' and p.get('meta'):
+		ids = [''] + [f' {i}' for i in range(1, len(sigs))]    # an empty id and ids with a leading blank
 	if p['path'] == 'array':
 		# HDF5Signatures only takes its whole-array write path for a bare SignatureArray (a wrapper goes through the per-signature path)
 		ids, meta, obj = list(range(len(sigs))), SignaturesMeta(), base
@@ -125,9 +134,35 @@ def compare_loaded(h, p):
 WRAPPED = ['AttributeManager.__setitem__', 'Group.create_dataset', 'Dataset.__setitem__', 'File.flush', 'File.close']
 
 
-def install_kill_wrappers(n, when, counter):
+def die(how):
+	"""The ways a writer process dies. 'kill': SIGKILL (also what SIGTERM's default action amounts to: no clean-up runs).
+	'sigint': Ctrl-C - CPython's handler raises KeyboardInterrupt, the interpreter unwinds (context managers close the file
+	cleanly) and the process then dies of SIGINT. 'oserror': the storage call fails (disk full, I/O error), the exception is not
+	handled anywhere and the process exits with a traceback."""
+	if how == 'kill':
+		os.kill(os.getpid(), signal.SIGKILL)
+	elif how == 'sigint':
+		os.kill(os.getpid(), signal.SIGINT)
+		for _ in range(1000):       # the handler runs between two bytecodes
+			pass
+		raise KeyboardInterrupt()   # not reached when the handler is installed
+	else:
+		raise OSError(28, 'No space left on device (injected)')
+
+
+def die_after_unwinding(e):
+	"""End of the writer child once the exception has propagated out of the library: die the way CPython does."""
+	if isinstance(e, KeyboardInterrupt):
+		signal.signal(signal.SIGINT, signal.SIG_DFL)
+		os.kill(os.getpid(), signal.SIGINT)
+	os._exit(1)
+
+
+def install_kill_wrappers(n, when, counter, how='kill'):
 	import h5py
 	from h5py._hl.attrs import AttributeManager
+	if how == 'sigint':
+		signal.signal(signal.SIGINT, signal.default_int_handler)    # a foreground process (the harness may have inherited SIG_IGN)
 
 	def wrap(cls, name):
 		orig = getattr(cls, name)
@@ -135,10 +170,10 @@ def install_kill_wrappers(n, when, counter):
 		def w(self, *a, **k):
 			counter[0] += 1
 			if counter[0] == n and when == 'before':
-				os.kill(os.getpid(), signal.SIGKILL)
+				die(how)
 			r = orig(self, *a, **k)
 			if counter[0] == n and when == 'after':
-				os.kill(os.getpid(), signal.SIGKILL)
+				die(how)
 			return r
 		setattr(cls, name, w)
 	wrap(AttributeManager, '__setitem__'); wrap(h5py.Group, 'create_dataset'); wrap(h5py.Dataset, '__setitem__')
@@ -157,7 +192,7 @@ def prewrite(p, path):
 	os.waitpid(pid, 0)
 
 
-def forked_write(p, path, n, when):
+def forked_write(p, path, n, when, how='kill'):
 	"""Run the writer in a forked child, killing it at call n. Returns ('killed'|'completed'|'error', total_calls|None)."""
 	if p.get('preexisting') and n != -1:
 		prewrite(p, path)
@@ -169,10 +204,13 @@ def forked_write(p, path, n, when):
 		try:
 			os.close(r)
 			counter = [0]
-			install_kill_wrappers(n, when, counter)
+			install_kill_wrappers(n, when, counter, how)
 			do_write(p, path)
 			os.write(wfd, str(counter[0]).encode())
 		except BaseException as e:
+			if how != 'kill' and counter[0] >= n > 0:
+				os.write(wfd, b'DIED-UNWINDING')
+				die_after_unwinding(e)
 			try:
 				os.write(wfd, f'ERR {type(e).__name__}: {e}'.encode())
 			except Exception:
@@ -190,6 +228,8 @@ def forked_write(p, path, n, when):
 	os.close(r)
 	_, status = os.waitpid(pid, 0)
 	if os.WIFSIGNALED(status) and os.WTERMSIG(status) == signal.SIGKILL:
+		return 'killed', None
+	if data.startswith(b'DIED-UNWINDING'):
 		return 'killed', None
 	if data.startswith(b'ERR'):
 		return 'error', data.decode()
@@ -232,12 +272,13 @@ def forked_load(p, path):
 	return data.decode() or 'loader-no-output'
 
 
-def judge(ctx, outcome, w, point_desc):
+def judge(ctx, outcome, w, point_desc, unwinding=False):
 	ctx.count('outcome:' + outcome.split(':')[0] + (':' + outcome.split(':')[1].split(' ')[0] if outcome.startswith('refused') else ''))
+	sfx = '-after-unwinding-death' if unwinding else ''
 	if outcome.startswith('loaded-different'):
-		ctx.violation('partial-file-loads-as-different-collection', f'{point_desc}: {outcome}', w)
+		ctx.violation('partial-file-loads-as-different-collection' + sfx, f'{point_desc}: {outcome}', w)
 	elif outcome.startswith('accepted-then-read-error'):
-		ctx.violation('partial-file-accepted-then-unreadable', f'{point_desc}: {outcome}', w)
+		ctx.violation('partial-file-accepted-then-unreadable' + sfx, f'{point_desc}: {outcome}', w)
 	elif outcome.startswith('loader-crashed') or outcome.startswith('loader-no-output') or outcome == 'child-error':
 		ctx.count('loader_abnormal')
 		ctx.notes.setdefault('loader_abnormal_examples', []).append(dict(w, outcome=outcome))
@@ -292,6 +333,24 @@ def run_calls(sh, ctx):
 			ctx.count('crash_points:call-level')
 			ctx.seen('file_sizes_left', size if size < 10000 else (size // 100000) * 100000)
 			judge(ctx, outcome, dict(w, file_size_left=size), f'{p["name"]} killed {when} call {n}/{total}')
+	# the same crash points, the writer now dying while the interpreter unwinds (Ctrl-C, failing storage call): the file object's
+	# context manager closes - and thereby flushes - the incomplete file before the process is gone
+	upts = pts if len(pts) <= 60 else sorted(set(pts[:20] + pts[-20:] + rng.sample(pts[20:-20], 20)))
+	for n in upts:
+		for how, when in (('sigint', 'after'), ('oserror', 'before')):
+			if path.exists():
+				os.unlink(path)
+			st, _ = forked_write(p, path, n, when, how)
+			w = dict(payload=p, call=n, of=total, when=when, death={'sigint': 'SIGINT (KeyboardInterrupt unwinds, then the process dies)', 'oserror': 'the storage call raises OSError, unhandled'}[how])
+			if st != 'killed':
+				ctx.inconc(f'{sh["name"]}: crash point {n}/{how} not reached: {st}')
+				continue
+			size = path.stat().st_size if path.exists() else -1
+			outcome = forked_load(p, path) if size >= 0 else 'refused:FileNotFoundError'
+			ctx.case(('calls', p['name'], n, how), nontrivial=True,
+			         sample=dict(payload=p['name'], crash=f'{how} at storage call {n} of {total}', file_size_left=size, outcome=outcome) if n in (1, total // 2, total) else None)
+			ctx.count(f'crash_points:call-level:{how}')
+			judge(ctx, outcome, dict(w, file_size_left=size), f'{p["name"]} writer died ({how}) at call {n}/{total}', unwinding=True)
 	if exhaustive:
 		ctx.count('payloads_enumerated_exhaustively')
 
@@ -357,7 +416,7 @@ def run_cli(sh, ctx):
 	out = ctx.workdir / 'cli.gs'
 	args = ['signatures', 'create', '-k', '7', '-p', 'AT', '-o', str(out), '--no-progress', '-c', '1'] + [str(f) for f in files]
 
-	def child(n, when):
+	def child(n, when, how='kill'):
 		r, wfd = os.pipe()
 		sys.stdout.flush(); sys.stderr.flush()
 		pid = os.fork()
@@ -365,15 +424,27 @@ def run_cli(sh, ctx):
 			try:
 				os.close(r)
 				counter = [0]
-				install_kill_wrappers(n, when, counter)
-				code, so, se, exc = clidrv.run_inproc(args)
+				install_kill_wrappers(n, when, counter, how)
+				if how == 'kill':
+					code, so, se, exc = clidrv.run_inproc(args)
+				else:
+					# the command as the console script runs it: an exception / KeyboardInterrupt propagates out of main()
+					from gambit.cli import cli
+					try:
+						cli.main([str(a) for a in args], standalone_mode=False)
+						code = 0
+					except BaseException as e:
+						if counter[0] >= n > 0:
+							os.write(wfd, b'DIED-UNWINDING')
+							die_after_unwinding(e)
+						code = 1
 				os.write(wfd, f'{counter[0]} {code}'.encode())
 			finally:
 				os._exit(0)
 		os.close(wfd)
 		data = os.read(r, 4096); os.close(r)
 		_, status = os.waitpid(pid, 0)
-		return ('killed', None) if os.WIFSIGNALED(status) else ('completed', data.decode())
+		return ('killed', None) if os.WIFSIGNALED(status) or data.startswith(b'DIED-UNWINDING') else ('completed', data.decode())
 
 	st, data = child(-1, 'before')
 	if st != 'completed' or not data or data.split()[1] != '0':
@@ -422,6 +493,17 @@ def run_cli(sh, ctx):
 			ctx.case(('cli', n, when), nontrivial=True)
 			ctx.count('crash_points:cli')
 			judge(ctx, outcome, dict(cli=True, call=n, of=total, when=when), f'signatures create killed {when} call {n}/{total}')
+		for how, when in (('sigint', 'after'), ('oserror', 'before')):
+			if out.exists():
+				os.unlink(out)
+			st, _ = child(n, when, how)
+			if st != 'killed':
+				ctx.inconc(f'cli crash point {n}/{how} not reached')
+				continue
+			outcome = load_cli(out) if out.exists() else 'refused:FileNotFoundError'
+			ctx.case(('cli', n, how), nontrivial=True)
+			ctx.count(f'crash_points:cli:{how}')
+			judge(ctx, outcome, dict(cli=True, call=n, of=total, death=how), f'signatures create died ({how}) at call {n}/{total}', unwinding=True)
 
 
 def run_shard(sh, ctx):
@@ -430,7 +512,7 @@ def run_shard(sh, ctx):
 
 def finalize(merged, tier, seed, inconclusive):
 	c = merged['counters']
-	for n in ['crash_points:call-level', 'crash_points:syscall-level', 'crash_points:cli', 'payloads_enumerated_exhaustively']:
+	for n in ['crash_points:call-level', 'crash_points:syscall-level', 'crash_points:cli', 'payloads_enumerated_exhaustively', 'crash_points:call-level:sigint', 'crash_points:call-level:oserror', 'crash_points:cli:sigint']:
 		if c.get(n, 0) == 0:
 			inconclusive.append(f'class never observed: {n}')
 	refused = sum(v for k, v in c.items() if k.startswith('outcome:refused'))
